@@ -65,7 +65,7 @@ pub fn corr_sets(ctx: &mut Ctx) {
         let (d, card, base, other) = if u32regs {
             let r = catch(std::panic::AssertUnwindSafe(|| {
                 let mut s = new32(p);
-                for k in 0..chunks { let sl = &stream[bounds[k]..bounds[k + 1]]; if !sl.is_empty() { s.sketch_slice(sl).unwrap(); } }
+                for k in 0..chunks { let sl = &stream[bounds[k]..bounds[k + 1]]; if !sl.is_empty() { s.sketch_slice(sl).unwrap(); } let _ = s.get_cardinal_stats(); let _ = s.get_signature().len(); let _ = s.get_low_sketch(); }
                 let cs = s.get_cardinal_stats();
                 (dump32(&s), format!("{} {}", fhx(cs.0), fhx(cs.1)))
             }));
@@ -76,7 +76,7 @@ pub fn corr_sets(ctx: &mut Ctx) {
         } else {
             let r = catch(std::panic::AssertUnwindSafe(|| {
                 let mut s = new16(p);
-                for k in 0..chunks { let sl = &stream[bounds[k]..bounds[k + 1]]; if !sl.is_empty() { s.sketch_slice(sl).unwrap(); } }
+                for k in 0..chunks { let sl = &stream[bounds[k]..bounds[k + 1]]; if !sl.is_empty() { s.sketch_slice(sl).unwrap(); } let _ = s.get_cardinal_stats(); let _ = s.get_signature().len(); let _ = s.get_low_sketch(); }
                 let cs = s.get_cardinal_stats();
                 (dump16(&s), format!("{} {}", fhx(cs.0), fhx(cs.1)))
             }));
